@@ -3,6 +3,8 @@
 From Coq Require Import List NArith ZArith Bool.
 Import ListNotations.
 From RV Require Import Base.Str Base.PathLex Path.Clean Path.CleanSpec Path.Relative Path.Helpers Path.HelpersFacts Core.Iter File.MemFile Path.Expand Path.Abs Xdg.Dirs Chmod.Sym.
+From stdpp Require gmap.
+From RV Require Import Memfs.State Memfs.Ops Memfs.Step.
 
 Definition api_components := components.
 Definition api_push := push.
@@ -43,7 +45,7 @@ Definition api_ext := ext.
 Definition api_trim_prefix := trim_prefix.
 Definition api_trim_suffix := trim_suffix.
 Definition api_trim_ext := trim_ext.
-Definition api_name := name.
+Definition api_name := Helpers.name.
 Definition api_has := has.
 Definition api_has_prefix := has_prefix.
 Definition api_has_suffix := has_suffix.
@@ -120,3 +122,12 @@ Definition api_vfs_config_dir (e : list (list N * list N)) (name : list N) (file
 Definition api_sym_mode (dir file link : bool) (mode octal : N) (sym : list N) :=
   sym_mode {| k_dir := dir; k_file := file; k_link := link |} mode octal sym.
 Definition api_revoking_mode := revoking_mode.
+
+(* ---- Memfs mirror (C01, C03, C06, C09, C10, C12, C20) ---- *)
+Definition api_mfs_init := mfs_init.
+Definition api_mfs_step (e : list (list N * list N)) (m : mfs) (o : op) := step (env_lookup e) m o.
+Definition api_mfs_entries (m : mfs) := fin_maps.map_to_list (m_ents m).
+Definition api_mfs_data (m : mfs) := fin_maps.map_to_list (m_data m).
+Definition api_files_list (e : entry) : option (list (list N)) :=
+  match e_files e with Some fs => Some (base.elements fs) | None => None end.
+Definition api_render_rpath := render_rpath.
